@@ -5,4 +5,5 @@ From Coq Require Import NArith.
 From RimeV Require Import Dep.Sched Gen.LockScopes.
 Extraction "c15_model.ml" N.of_nat cfg_of_table table_shape_ok lock_scopes init enum run_macro macro log race_state
   witness_window_script witness_window_sm_script witness_window_sched
-  witness_badcall_script witness_badcall_sched witness_race_sched.
+  witness_badcall_script witness_badcall_sched witness_race_sched
+  witness_closed_sched witness_seen_sched handover_fact handover_of_table nw.
